@@ -266,6 +266,8 @@ type c21PE struct {
 	arg      string
 	argQuoted bool // the argument word has a quoted part
 	origSrcSlash bool // replace pattern source starts with '/'
+	withAmp       bool // an unquoted part of the replacement yields a '&'
+	withBackslash bool // an unquoted literal part of the replacement has a backslash
 }
 
 func (p *c21PE) tokens() string {
@@ -352,7 +354,7 @@ func c21WordQuoted(w *syntax.Word) bool {
 }
 
 // c21Parse parses `p <word>` and returns the word and the decoded parameter expansion.
-func c21Parse(src string, quoted bool) (*syntax.Word, *c21PE, string) {
+func c21Parse(src string, quoted bool, st *c21State) (*syntax.Word, *c21PE, string) {
 	text := src
 	if quoted {
 		text = `"` + src + `"`
@@ -382,12 +384,12 @@ func c21Parse(src string, quoted bool) (*syntax.Word, *c21PE, string) {
 	if pe == nil {
 		return nil, nil, "parse-shape"
 	}
-	d, perr := c21Decode(pe, src)
+	d, perr := c21Decode(pe, src, st)
 	return w, d, perr
 }
 
 // c21Decode reads the fields of a ParamExp node into the form the model receives.
-func c21Decode(pe *syntax.ParamExp, src string) (*c21PE, string) {
+func c21Decode(pe *syntax.ParamExp, src string, st *c21State) (*c21PE, string) {
 	if pe.Param == nil || pe.Width || pe.IsSet || pe.NestedParam != nil || len(pe.Modifiers) != 0 || pe.Flags != nil {
 		return nil, "parse-shape"
 	}
@@ -417,7 +419,12 @@ func c21Decode(pe *syntax.ParamExp, src string) (*c21PE, string) {
 			d.idxKind, d.idxText = 'e', t
 		}
 	}
+	// operator words are expanded before the model sees them, in the case's own environment
+	// (they may read variables: ${x/p/$w})
 	cfg0 := &expand.Config{Env: &c21Env{m: map[string]expand.Variable{}}}
+	if st != nil {
+		cfg0.Env = st.env()
+	}
 	switch {
 	case pe.Slice != nil:
 		d.kind = 'S'
@@ -458,6 +465,23 @@ func c21Decode(pe *syntax.ParamExp, src string) (*c21PE, string) {
 			}
 		}
 		d.argQuoted = c21WordQuoted(pe.Repl.Orig) || c21WordQuoted(pe.Repl.With)
+		if pe.Repl.With != nil {
+			for _, part := range pe.Repl.With.Parts {
+				switch part := part.(type) {
+				case *syntax.Lit:
+					if strings.Contains(part.Value, "&") {
+						d.withAmp = true
+					}
+					if strings.Contains(part.Value, "\\") {
+						d.withBackslash = true
+					}
+				case *syntax.ParamExp:
+					if v, err := expand.Literal(cfg0, &syntax.Word{Parts: []syntax.WordPart{part}}); err == nil && strings.Contains(v, "&") {
+						d.withAmp = true
+					}
+				}
+			}
+		}
 		if i := strings.IndexByte(src, '/'); i >= 0 {
 			rest := src[i+1:]
 			if d.all {
@@ -832,7 +856,7 @@ type c21ShRes struct {
 }
 
 func c21Search(c *Ctx, cs c21Case) c21ShRes {
-	_, d, perr := c21Parse(cs.src, cs.quoted)
+	_, d, perr := c21Parse(cs.src, cs.quoted, &cs.st)
 	script := cs.script(d)
 	run := func() (ShellResult, ShellResult, string) {
 		bs, ok := c21Bash(c, script)
@@ -996,7 +1020,10 @@ func c21GenState(r *Rand) c21State {
 		st.ifsSet, st.ifs = true, r.Pick(c21IfsChoices)
 	}
 	st.params = c21GenList(r, 3)
-	st.names = []string{"x", "y", "r", "xa"}
+	st.names = []string{"x", "y", "r", "xa", "w"}
+	// w: a value to be used as replacement text — what a regexp template or bash's patsub_replacement
+	// would read specially must come out verbatim ('&' from a quoted expansion)
+	st.vars["w"] = c21Var{kind: 's', str: r.Pick(c21ReplTexts)}
 	st.vars["x"] = c21GenVar(r, "usseiiSSaa")
 	st.vars["y"] = c21GenVar(r, "uss")
 	switch r.Intn(8) {
@@ -1052,6 +1079,27 @@ func c21PatSrc(r *Rand, pat string, slashEsc bool, allowQuote bool) string {
 		}
 	}
 	return sb.String()
+}
+
+var c21ReplTexts = []string{"$1", "US$5", "${n}", "$$", "$name", "$1$", "$", "\\1", "\\", "a\\b", "&", "\\&", "[&]", "$0x", "${1}b", "X"}
+
+// c21GenWith draws the source of a replacement word: literals, quoted text and variable values.
+func c21GenWith(r *Rand) string {
+	switch r.Intn(10) {
+	case 0, 1, 2:
+		return r.Pick([]string{"X", "", "XY", "*", "a", "é"})
+	case 3:
+		return r.Pick([]string{"$w", "${w}", "\"$w\"", "$w$w", "<$w>", "$1", "\"$1\""})
+	case 4:
+		return "$w"
+	case 5:
+		return "'" + r.Pick(c21ReplTexts) + "'"
+	case 6:
+		return r.Pick([]string{"&", "[&]", "&&", "\\&", "\"&\"", "'&'", "a&b"})
+	case 7:
+		return r.Pick([]string{"\\\\", "a\\b", "\\$1", "\\$w"})
+	}
+	return r.Pick([]string{"X", "$w", "'$1'", "\"$w\""})
 }
 
 var c21Words = []string{"w", "", "ab", "a:b", "W w", "*", "A", "é", "a b"}
@@ -1125,7 +1173,7 @@ func c21GenForm(r *Rand, st c21State) string {
 		}
 		s := "${" + param + sep + src
 		if r.Chance(85) {
-			s += "/" + r.Pick([]string{"X", "", "XY", "*", "a", "é"})
+			s += "/" + c21GenWith(r)
 		}
 		return s + "}"
 	case 9, 10, 11:
@@ -1231,9 +1279,9 @@ func c21GenCase(r *Rand) c21Case {
 // tie: one case
 
 func c21RunCase(c *Ctx, cs c21Case) (*c21PE, bool) {
-	w, d, perr := c21Parse(cs.src, cs.quoted)
+	w, d, perr := c21Parse(cs.src, cs.quoted, &cs.st)
 	if cs.ast != nil {
-		d, perr = c21Decode(cs.ast, "")
+		d, perr = c21Decode(cs.ast, "", &cs.st)
 		w = &syntax.Word{Parts: []syntax.WordPart{cs.ast}}
 		if cs.quoted {
 			w = &syntax.Word{Parts: []syntax.WordPart{&syntax.DblQuoted{Parts: []syntax.WordPart{cs.ast}}}}
@@ -1336,7 +1384,7 @@ func c21Remove(c *Ctx, s, pat string, fromEnd, shortest bool) {
 }
 
 func c21LitOf(c *Ctx, src string, st c21State) (string, bool) {
-	w, _, perr := c21Parse(src, true)
+	w, _, perr := c21Parse(src, true, &st)
 	if perr != "" {
 		return "", false
 	}
@@ -1376,7 +1424,7 @@ func c21Units(c *Ctx, r *Rand) {
 			src += ":(" + l + ")"
 		}
 		src += "}"
-		w, _, perr := c21Parse(src, true)
+		w, _, perr := c21Parse(src, true, &st)
 		if perr != "" {
 			return
 		}
@@ -1410,15 +1458,19 @@ func c21Units(c *Ctx, r *Rand) {
 		if _, err := pattern.Regexp(pat, 0); err != nil {
 			return
 		}
-		with := r.Pick([]string{"X", "", "XY"})
+		with := r.Pick([]string{"X", "", "XY", "$1", "US$5", "${n}", "$$", "\\1", "&", "$name"})
 		all := r.Chance(50)
 		sep := "/"
 		if all {
 			sep = "//"
 		}
-		src := "${x" + sep + c21PatSrc(r, pat, true, false) + "/" + with + "}"
-		_, d, perr := c21Parse(src, true)
-		if perr != "" || d.kind != 'R' || d.orig != pat {
+		withSrc := with
+		if strings.ContainsAny(with, "$\\&{") {
+			withSrc = "'" + with + "'"
+		}
+		src := "${x" + sep + c21PatSrc(r, pat, true, false) + "/" + withSrc + "}"
+		_, d, perr := c21Parse(src, true, &st)
+		if perr != "" || d.kind != 'R' || d.orig != pat || d.with != with {
 			return
 		}
 		got, ok := c21LitOf(c, src, st)
@@ -1470,7 +1522,7 @@ func c21SpecTable(c *Ctx) {
 			case "set":
 				st.vars["x"] = c21Var{kind: 's', str: "v"}
 			}
-			w, _, perr := c21Parse("${x"+op+"w}", true)
+			w, _, perr := c21Parse("${x"+op+"w}", true, nil)
 			if perr != "" {
 				continue
 			}
@@ -1564,7 +1616,7 @@ func c21(c *Ctx) {
 		for try := 0; try < 50 && !ok; try++ {
 			cs = c21GenCase(rs)
 			cs.nounset = false
-			_, d, perr := c21Parse(cs.src, cs.quoted)
+			_, d, perr := c21Parse(cs.src, cs.quoted, &cs.st)
 			if perr != "" {
 				continue
 			}
@@ -1797,6 +1849,12 @@ func c21Excluded(cs c21Case, d *c21PE) string {
 	// --- recorded findings
 	if d.kind == 'R' && d.anchor != 'n' {
 		return "C21-anchored-replace"
+	}
+	if d.kind == 'R' && d.withBackslash {
+		return "c22-literal-backslash" // expand.Literal keeps the backslashes of unquoted literals (C22-assign-backslash)
+	}
+	if d.kind == 'R' && d.withAmp {
+		return "C21-patsub-ampersand"
 	}
 	if d.kind == 'R' && d.origSrcSlash {
 		return "C21-replace-leading-slash"
